@@ -143,6 +143,32 @@ def _own_inputs(ctx, prog, f, selfp):
            key="C14.5:roll-axis")
 
 
+def _refusal_reaches_caller(ctx, prog):
+    """C14.3: 'a second projection of the same object is refused' — the
+    refusal is the TrajectoryException project() raises; a caller inside evo
+    that catches it and carries on turns the refusal into 'silently keep the
+    first plane' (values and stored trajectories then belong to another
+    plane than the one requested and named in the result)."""
+    from ..lib import sweep
+    n = 0
+    for q, r in sorted(sweep(prog, "plain").items()):
+        for e in r.of_kind("call"):
+            if not (e.data.get("name") or "").endswith("PosePath3D.project"):
+                continue
+            n += 1
+            caught = [ty for _, types in e.tries for ty in types
+                      if any(k in ty for k in (
+                          "TrajectoryException", "EvoException", "Exception",
+                          "BaseException"))]
+            ctx.ob("C14.3", e, not caught,
+                   f"{q}: the refusal of a second projection propagates to "
+                   f"the caller" if not caught else
+                   f"{q}: project() is called inside a try that catches "
+                   f"{caught[0]}: a second projection (to another plane) is "
+                   f"no longer refused but skipped", key=f"C14.3:caller:{q}")
+    ctx.require(n >= 4, "callers of PosePath3D.project not found")
+
+
 def check(ctx):
     prog = ctx.prog
     f = prog.func(f"{PATH}.project")
@@ -162,6 +188,7 @@ def check(ctx):
                                   "_NEXT_AXIS", "_EPS"))
 
     _own_inputs(ctx, prog, f, selfp)
+    _refusal_reaches_caller(ctx, prog)
 
     for member in planes:
         node = planec.members[member]
